@@ -14,7 +14,7 @@ RULE = ("Projects as for C03/C04 with consistent line endings (pure LF, CRLF or 
         "filler in a third of the cases; filler lines that look like diff syntax: '--- x', '+++ x', '@@ -1 +1 @@', leading "
         "blank; long gaps so that files get several hunks) x bump flag sets x v2 and legacy patterns, commit off or commit on "
         "with a clean fake git. Oracle: `update --dry` leaves every file byte-identical and issues no add/commit/tag/push and "
-        "runs no hook; when it exits 0 its stdout is parsed by a strict unified-diff parser (hunk counts drive the parse) and "
+        "runs no hook (also when one pattern does not match or a message template cannot be rendered); when it exits 0 its stdout is parsed by a strict unified-diff parser (hunk counts drive the parse) and "
         "applied to the snapshot with verification of every context/removed line; the real `update` with the same arguments "
         "must exit 0 and leave every file byte-equal to the applied result (files not mentioned: unchanged). Non-trivial: the "
         "diff has >= 2 files or >= 2 hunks.")
@@ -55,7 +55,19 @@ def build(d):
             # str.splitlines separators other than \n / \r must not appear: bumpver splits on the detected separator only,
             # and so does the applier; they are harmless, but keep LF/CR out of filler
             pass
-    return {"spec": spec, "flags": flags, "date": date, "commit": d.chance(1, 3), "hooks": d.chance(1, 2)}
+    # now and then: one (file, pattern) that does not match, or a message template that cannot be rendered - whatever
+    # the dry run then says (normally: an error), a dry run that exits 0 promises a real run that exits 0
+    fault = None
+    if d.chance(1, 12):
+        fi = d.int(0, len(spec["files"]) - 1)
+        occ = sorted({v for segs in spec["files"][fi]["lines"] for k, v in segs if k == "o"})
+        if occ:
+            fault = {"kind": "nomatch", "file": fi, "pattern": d.choice(occ)}
+    k = d.int(0, 11)
+    msg = d.choice(["release {version}", "v{new_version", "{0} {new_version}", "done }", "{old_version.major}"]) if k == 0 else \
+        d.choice(["release {new_version}", "bump OLD -> NEW"]) if k < 3 else None
+    return {"spec": spec, "flags": flags, "date": date, "commit": d.chance(1, 3), "hooks": d.chance(1, 2), "fault": fault, "msg": msg,
+            "msg_kind": d.choice(["-c", "--tag-message"])}
 
 
 def check(case):
@@ -70,7 +82,15 @@ def check(case):
     if not flags.get("pin_date"):
         flags["date"] = case["date"]
     args = bv.flag_args(flags)
+    if case.get("msg") is not None:
+        args += [case["msg_kind"], case["msg"]]
     classes = ["legacy" if spec["legacy"] else "v2", "commit-on" if case["commit"] else "commit-off"]
+    if case.get("fault"):
+        from checks.c06_failed_update_untouched import apply_fault
+        spec = apply_fault(spec, case["fault"], "remove")
+        classes.append("with-non-matching-pattern")
+    if case.get("msg") is not None:
+        classes.append("with-message-template")
     tmp = tempfile.mkdtemp(prefix="c13_")
     fvdir = None
     try:
